@@ -166,9 +166,14 @@ func cmdCheck(args []string) {
 			keys = append(keys, k)
 		}
 		sort.Strings(keys)
+		// longest first (durations of the last frozen run): the slowest function must not be the
+		// last one to start
+		if tm := loadTimings(*verif); tm != nil {
+			sort.SliceStable(keys, func(i, j int) bool { return tm[keys[i]] > tm[keys[j]] })
+		}
 		results := make([]*FuncResult, len(keys))
 		done := make(chan int)
-		sem := make(chan struct{}, 12)
+		sem := make(chan struct{}, 16)
 		for i, k := range keys {
 			i, k := i, k
 			go func() {
@@ -310,6 +315,18 @@ func cmdCheck(args []string) {
 	}
 
 	if *freeze {
+		tm := loadTimings(*verif)
+		if tm == nil {
+			tm = map[string]float64{}
+		}
+		for _, r := range runs {
+			if r.res != nil && strings.HasSuffix(r.key, "["+tc.configs[0]+"]") {
+				tm[strings.Fields(r.key)[0]] = float64(int(r.res.Secs*10)) / 10
+			}
+		}
+		if b, err := json.MarshalIndent(tm, "", " "); err == nil {
+			os.WriteFile(filepath.Join(*verif, "claims", "timings.json"), append(b, '\n'), 0o644)
+		}
 		os.MkdirAll(filepath.Join(*verif, "claims"), 0o755)
 		cf := claimFile{Property: *prop, Functions: frozen}
 		b, _ := json.MarshalIndent(cf, "", " ")
@@ -405,6 +422,19 @@ func cmdCheck(args []string) {
 		}
 		os.Exit(1)
 	}
+}
+
+// loadTimings: seconds per function from the last frozen runs (scheduling hint only).
+func loadTimings(verif string) map[string]float64 {
+	b, err := os.ReadFile(filepath.Join(verif, "claims", "timings.json"))
+	if err != nil {
+		return nil
+	}
+	var tm map[string]float64
+	if json.Unmarshal(b, &tm) != nil {
+		return nil
+	}
+	return tm
 }
 
 func dedup(ss []string) []string {
